@@ -61,8 +61,8 @@ def _inlinable(facts, caller, call, stop, lambdas):
         if m.get("kind") in ("ctor", "dtor"):
             return None
     else:
-        # free function: only file-local ones (anonymous namespace / static)
-        if "(anonymous namespace)" not in f.name and not f.d.get("static"):
+        # free function: only internal helpers (anonymous namespace / static / defined in a source file, not in a header)
+        if "(anonymous namespace)" not in f.name and not f.d.get("static") and not (f.file or "").endswith((".cpp", ".cc", ".cxx")):
             return None
     if f.d.get("kind") in ("ctor", "dtor"):
         return None
